@@ -73,7 +73,7 @@ def gen_details(rng, p=0.3, variables=True):
     if rng.random() < p / 3:
         d['execute_exclusively'] = rng.choice([True, False])
     if rng.random() < p / 3:
-        d['parallel_interference_factor'] = rng.choice([2.5, 1, '1.5'])
+        d['parallel_interference_factor'] = rng.choice([2.5, 1, '1.5', 0, 0.0, -0.0, float('nan'), 1e-320, float('inf'), -1, '0', 'nan'])
     if rng.random() < p / 2:
         d['env'] = rng.choice([{}, {'A': 'x'}, {'PATH': '/bin', 'B': '1'}, {'H': '{HOME}/x', 'J': '{}'},
                                {'JAVA_OPTS': "-Dgreeting=it's"}, {'D': '5" display', 'W': 'C:\\data\\'}, {'Q': '"', 'T': '~/it\'s'}])
@@ -192,6 +192,12 @@ def gen_valid(rng):
         cfg['machines'] = {'m1': dict(gen_details(rng, 0.3), description='box')}
     if rng.random() < 0.2:
         cfg['.anything'] = rng.choice([1, {'a': [1, 2]}, None])
+    if rng.random() < 0.3:
+        # every run may execute in parallel with others (the parallel scheduler is then chosen when
+        # there are several CPUs), with some value of the factor that once steered the parallelism
+        cfg.setdefault('runs', {})['execute_exclusively'] = False
+        if rng.random() < 0.7:
+            cfg['runs']['parallel_interference_factor'] = rng.choice([0, 0.0, float('nan'), 1e-320, 2.5, 1e308, -2, '0.0'])
     cfg['benchmark_suites'] = suites
     cfg['executors'] = executors
     cfg['experiments'] = experiments
@@ -447,6 +453,12 @@ experiments:
      'experiments:\n  X: {suites: [S1], env: {X: ~}, executions: [{E1: {env: {D: ~}}}]}\n'),
     ('env-null-value-benchmark', 'benchmark_suites:\n  S1: {gauge_adapter: Time, command: c, benchmarks: [{b: {env: {B: }}}]}\n'
                                  'executors:\n  E1: {executable: x}\nexperiments:\n  X: {suites: [S1], executions: [E1]}\n'),
+    ('pif-zero-non-exclusive', 'runs: {execute_exclusively: false, parallel_interference_factor: 0}\nbenchmark_suites:\n  S1: {gauge_adapter: Time, command: "c %(benchmark)s", benchmarks: [b1, b2]}\n'
+                               'executors:\n  E1: {executable: x}\nexperiments:\n  X: {suites: [S1], executions: [E1]}\n'),
+    ('pif-nan-non-exclusive', 'benchmark_suites:\n  S1: {gauge_adapter: Time, command: "c %(benchmark)s", execute_exclusively: false, parallel_interference_factor: .nan, benchmarks: [b1, b2, b3]}\n'
+                              'executors:\n  E1: {executable: x}\nexperiments:\n  X: {suites: [S1], executions: [E1]}\n'),
+    ('pif-denormal-non-exclusive', 'benchmark_suites:\n  S1: {gauge_adapter: Time, command: "c %(benchmark)s", execute_exclusively: false, benchmarks: [b1, {b2: {parallel_interference_factor: 1.0e-320}}]}\n'
+                                   'executors:\n  E1: {executable: x}\nexperiments:\n  X: {suites: [S1], executions: [E1]}\n'),
     ('empty-key', 'benchmark_suites:\n  "": {gauge_adapter: Time, command: c, benchmarks: [b]}\n'),
 ]
 
@@ -490,7 +502,8 @@ def run_impl(ck, text, cli, idx):
         f.write(text)
     # `-p` (print the execution plan: command lines are rendered) instead of `-E` when asked for
     mode = ['-p'] if '-p' in cli else ['-E']
-    r = drive_config.run_main(wd, mode + [conf] + [a for a in cli if a != '-p'])
+    # several CPUs: documents with two or more non-exclusive runs get the parallel scheduler constructed
+    r = drive_config.run_main(wd, mode + [conf] + [a for a in cli if a != '-p'], cpu_count=1 if '-p' in cli else 8)
     st = r.status()
     phase = 'after-compile' if r.compiled else 'compile'
     where = None
@@ -643,6 +656,15 @@ DETAIL_KEYS = ['invocations', 'iterations', 'warmup', 'max_invocation_time', 'mi
 VAR_KEYS = ['input_sizes', 'cores', 'variable_values', 'tags']
 
 
+def same_doc(o):
+    """canonical form for comparing parsed documents (NaN equals itself, key order irrelevant)"""
+    if isinstance(o, dict):
+        return ('m', sorted(((repr(k), same_doc(v)) for k, v in o.items()), key=lambda kv: kv[0]))
+    if isinstance(o, list):
+        return ('l', [same_doc(x) for x in o])
+    return repr(o)
+
+
 def detail_maps(cfg):
     """the maps of a configuration that may carry run details: (map, may it carry variables too)
     — runs, machines, suites, executors, experiments, benchmark details, execution details"""
@@ -671,7 +693,7 @@ def detail_maps(cfg):
 
 
 # YAML scalars on the edges of each type, for every run detail on every level
-EDGE = [float('inf'), float('-inf'), float('nan'), 1e308, 1e100, -0.0, 0.5, 2.5, 90.0, 10 ** 30, -(10 ** 30), 2 ** 63, 0, -1,
+EDGE = [1e-320, 5e-324, float('inf'), float('-inf'), float('nan'), 1e308, 1e100, -0.0, 0.5, 2.5, 90.0, 10 ** 30, -(10 ** 30), 2 ** 63, 0, -1,
         True, False, None, '', '1e5', '.inf', 'inf', 'nan', '0x10', '1_000', '5', '5!', ' 5', '-3', '+3']
 EDGE_KEYS = ['invocations', 'iterations', 'warmup', 'min_iteration_time', 'max_invocation_time', 'retries_after_failure',
              'ignore_timeouts', 'execute_exclusively', 'parallel_interference_factor']
@@ -790,7 +812,7 @@ def run(ck):
                       'any traceback of the session is an oracle failure (signature phase: after-compile)']
     cases = load_corpus()
     ck.count('corpus', len(cases))
-    cases += [(k, t, [], k.startswith(('null-details-', 'null-retries-', 'quoted-invocations', 'anchor-merge', 'profile-ok', 'env-lone', 'env-tilde'))) for (k, t) in ANCHOR_TEXTS]
+    cases += [(k, t, [], k.startswith(('null-details-', 'null-retries-', 'quoted-invocations', 'anchor-merge', 'profile-ok', 'env-lone', 'env-tilde', 'pif-zero', 'pif-nan', 'pif-denormal', 'pif-inf', 'pif-string'))) for (k, t) in ANCHOR_TEXTS]
     cases += [(k + '/-p', t, ['-p'], k.startswith(('env-lone', 'env-tilde'))) for (k, t) in ANCHOR_TEXTS if k.startswith(('command-', 'quoted-', 'anchor-merge', 'env-lone', 'env-tilde', 'env-null-value'))]
     n = 180 if quick else 3000
     for _ in range(n):
@@ -812,7 +834,7 @@ def run(ck):
             # parsed, the factored text must be the same configuration (plus the dot key)
             back = yaml.safe_load(ftext)
             back.pop('.defs', None)
-            if back != cfg:
+            if same_doc(back) != same_doc(cfg):
                 raise lib.InfraError('factoring changed the configuration')
             cases.append(('valid-factored' if valid else 'dangling-cli-factored', ftext, cli, valid, grp))
         for _m in range(3):
@@ -825,6 +847,7 @@ def run(ck):
             except Exception:
                 continue
             cases.append((k, text, cli if ck.rng.random() < 0.5 else [], False))
+    cli_sessions(ck, not quick)
     # keep the members of a group in one batch
     i = 0
     while i < len(cases):
@@ -835,7 +858,57 @@ def run(ck):
         i = j
 
 
+CLI_CONFIG = """default_data_file: cli.data
+benchmark_suites:
+  S1: {gauge_adapter: RebenchLog, command: "h %(benchmark)s %(input)s", input_sizes: [2, 10], benchmarks: [b1, b2]}
+executors:
+  E1: {path: bin, executable: vm}
+experiments:
+  X: {suites: [S1], executions: [E1]}
+"""
+
+
+def cli_sessions(ck, thorough):
+    """the real CLI in child processes: a valid configuration is accepted whatever the process is
+    started in — the working directory (or --git-repo) is a git repository whose HEAD is ASCII, UTF-8,
+    printed in Latin-1, or a raw Latin-1 commit object; the locale is UTF-8 or C"""
+    kinds = ['ascii', 'utf8', 'latin1-log', 'latin1-raw']
+    scen = []
+    for kind in kinds:
+        scen.append((kind, 'cwd', {}))
+    scen.append(('latin1-raw', 'git-repo', {}))
+    scen.append(('latin1-log', 'cwd', {'LC_ALL': 'C', 'PYTHONUTF8': '0', 'PYTHONCOERCECLOCALE': '0'}))
+    if thorough:
+        scen += [(k, 'git-repo', {'LC_ALL': 'C', 'PYTHONUTF8': '0', 'PYTHONCOERCECLOCALE': '0'}) for k in kinds]
+    repos = {}
+    for i, (kind, where, env) in enumerate(scen):
+        if kind not in repos:
+            repos[kind] = drive_config.make_git_repo(os.path.join(ck.scratch, 'git-' + kind), kind)
+        repo = repos[kind]
+        wd = repo if where == 'cwd' else os.path.join(ck.scratch, 'cli-plain')
+        os.makedirs(wd, exist_ok=True)
+        conf = os.path.join(wd, 'cli.conf')
+        with open(conf, 'w') as f:
+            f.write(CLI_CONFIG)
+        argv = ['-E'] + (['--git-repo', repo] if where == 'git-repo' else []) + [conf]
+        r = drive_config.run_cli(wd, argv, env)
+        ck.impl_traces += 1
+        st = r.status()
+        inp = {'mutation': 'valid', 'yaml': CLI_CONFIG, 'cli': argv[:-1], 'process': {'git_head': kind, 'repository': where, 'env': env}}
+        ck.count('cli-session:git-' + kind)
+        ck.case(nontrivial_key=('cli', kind, where, json.dumps(env, sort_keys=True)))
+        if r.crash:
+            ck.oracle_fail('no_traceback', inp, {'status': st, 'stderr': r.stderr[-500:]},
+                           signature={'clause': 'no_traceback', 'phase': 'cli', 'exception': r.crash[0], 'git_head': kind})
+        elif st != 'ok':
+            ck.oracle_fail('valid_accepted', inp, {'status': st, 'stderr': r.stderr[-500:], 'stdout': r.stdout[-300:]},
+                           signature={'clause': 'valid_accepted', 'status': st, 'git_head': kind})
+
+
 def replay(ck, data):
+    if data['input'].get('process'):
+        cli_sessions(ck, False)
+        return
     inp = data['input']
     check_docs(ck, [(inp['mutation'], inp['yaml'], inp['cli'], inp['mutation'] == 'valid')],
                os.environ.get('VERIF_C19_VARIANT') != 'pinned')
